@@ -409,7 +409,20 @@ fn stock_shell_aborts(ctx: &Ctx) {
             if name == "syntax-error" && cxt != "CMD" {
                 return;
             }
-            let script = format!("readonly ro=1\ntrap '/bin/echo EXIT $?' EXIT\n/bin/echo before\n{}\n/bin/echo after\n", cxt.replace("CMD", cmd));
+            // the EXIT trap is set in one of several spellings, some naming signals in the same command;
+            // in those runs the shell is started with INT and QUIT ignored, so that these conditions
+            // cannot be trapped (silently, in a non-interactive shell) - EXIT must be all the same
+            let form = (i.wrapping_mul(7).wrapping_add(ctx.seed as usize)) % 6;
+            let trap_line = [
+                "trap '/bin/echo EXIT $?' EXIT",
+                "trap '/bin/echo EXIT $?' INT EXIT",
+                "trap '/bin/echo EXIT $?' EXIT QUIT",
+                "trap '/bin/echo EXIT $?' 0",
+                "trap '/bin/echo EXIT $?' QUIT 0 INT",
+                "trap '/bin/echo EXIT $?' EXIT",
+            ][form];
+            let ignore_at_start = matches!(form, 1 | 2 | 4);
+            let script = format!("readonly ro=1\n{trap_line}\n/bin/echo before\n{}\n/bin/echo after\n", cxt.replace("CMD", cmd));
             let dir = std::env::temp_dir().join(format!("verif-c10s-{}-{i}", std::process::id()));
             let _ = std::fs::remove_dir_all(&dir);
             if std::fs::create_dir_all(&dir).is_err() || std::fs::write(dir.join("s.sh"), &script).is_err() {
@@ -428,6 +441,18 @@ fn stock_shell_aborts(ctx: &Ctx) {
                     command.args(["-c", &script]);
                 }
                 _ => input = Some(script.clone().into_bytes()),
+            }
+            if ignore_at_start {
+                use std::os::unix::process::CommandExt;
+                // SAFETY: signal(2) is async-signal-safe; nothing else happens between fork and exec
+                unsafe {
+                    command.pre_exec(|| {
+                        libc::signal(libc::SIGINT, libc::SIG_IGN);
+                        libc::signal(libc::SIGQUIT, libc::SIG_IGN);
+                        Ok(())
+                    });
+                }
+                ctx.count("stock_shell_runs_started_with_INT_QUIT_ignored", 1);
             }
             let out = crate::util::run_child(command, input, 60);
             let _ = std::fs::remove_dir_all(&dir);
